@@ -229,9 +229,17 @@ fn cstr(p: &[u8]) -> It {
     It::from_parts(T_STRING, p)
 }
 
-/// null | true: payload-less items whose text has the same length (keeps every text position concrete)
-fn nt() -> It {
-    It { word: if kani::any() { T_NULL } else { T_TRUE }, pay: [0u8; PAYMAX], plen: 0 }
+/// concrete payload-less items.  (A SYMBOLIC entry type makes CBMC explore every branch of the renderer for that item,
+/// number formatting and nested containers included: minutes per item.  The text twins keep all entry words concrete;
+/// only string BYTES are symbolic.)
+fn c_null() -> It {
+    It { word: T_NULL, pay: [0u8; PAYMAX], plen: 0 }
+}
+fn c_true() -> It {
+    It { word: T_TRUE, pay: [0u8; PAYMAX], plen: 0 }
+}
+fn c_false() -> It {
+    It { word: T_FALSE, pay: [0u8; PAYMAX], plen: 0 }
 }
 
 /// ESCAPING, scalar documents: a 1-byte string with an arbitrary ASCII byte (controls, quote, backslash included)
@@ -273,13 +281,13 @@ fn km_text_scalar_str2() {
     assert!(t.same(&to_string(doc.as_slice())));
 }
 
-/// ESCAPING inside an array, with an element after the string: [str1, null|true]
+/// ESCAPING inside an array, with an element after the string: [str1, true]
 #[kani::proof]
 #[kani::unwind(6)]
 #[kani::stub(crate::parser::parse_value, no_text)]
 #[kani::stub(std::string::String::from_utf8_lossy, lossy_ascii)]
 fn km_text_array_str1() {
-    let a = [sc_str1().it, nt()];
+    let a = [sc_str1().it, c_true()];
     let doc = lay_array(&a);
     let mut t = Txt::new();
     t.ch(b'[');
@@ -290,14 +298,14 @@ fn km_text_array_str1() {
     assert!(t.same(&to_string(doc.as_slice())));
 }
 
-/// ESCAPING of object keys: {k: null|true} with an arbitrary 1-byte ASCII key
+/// ESCAPING of object keys: {k: null} with an arbitrary 1-byte ASCII key
 #[kani::proof]
 #[kani::unwind(6)]
 #[kani::stub(crate::parser::parse_value, no_text)]
 #[kani::stub(std::string::String::from_utf8_lossy, lossy_ascii)]
 fn km_text_object_key1() {
     let k = [key1()];
-    let v = [nt()];
+    let v = [c_null()];
     let doc = lay_object(&k, &v);
     let mut t = Txt::new();
     t.ch(b'{');
@@ -308,17 +316,26 @@ fn km_text_object_key1() {
     assert!(t.same(&to_string(doc.as_slice())));
 }
 
-/// STRUCTURE, compact: [[], {}, ["x"], {"k": null|true}, "q\"\n\u{1}"] -- concrete strings (one with the three escape
-/// classes), items null|true; the real from_utf8_lossy is used
+/// STRUCTURE, compact: [[], {}, ["x"]] -- nested empty containers followed by a further element; concrete strings
 #[kani::proof]
 #[kani::unwind(6)]
 #[kani::stub(crate::parser::parse_value, no_text)]
-fn km_text_structure() {
-    let v = nt();
+#[kani::stub(std::string::String::from_utf8_lossy, lossy_ascii)]
+fn km_text_structure1() {
     let d1 = lay_array(&[cont(&lay_array(&[])), cont(&lay_object(&[], &[])), cont(&lay_array(&[cstr(b"x")]))]);
     let mut t = Txt::new();
     t.lit(b"[[],{},[\"x\"]]");
     assert!(t.same(&to_string(d1.as_slice())));
+}
+
+/// STRUCTURE, compact: [{"k": false}, "q\"\n\u{1}"] -- an element after a nested object; a concrete string with the
+/// three escape classes
+#[kani::proof]
+#[kani::unwind(6)]
+#[kani::stub(crate::parser::parse_value, no_text)]
+#[kani::stub(std::string::String::from_utf8_lossy, lossy_ascii)]
+fn km_text_structure2() {
+    let v = c_false();
     let d2 = lay_array(&[cont(&lay_object(&[cstr(b"k")], &[v])), cstr(b"q\"\n\x01")]);
     let mut u = Txt::new();
     u.lit(b"[{\"k\":");
@@ -327,15 +344,16 @@ fn km_text_structure() {
     assert!(u.same(&to_string(d2.as_slice())));
 }
 
-/// STRUCTURE, pretty array ["a", null|true, [], ["b"], false]: two-space indentation, one element per line; an EMPTY
-/// nested container is printed by the current code as the opening bracket, an empty line, the parent's indentation and
-/// the closing bracket
+/// STRUCTURE, pretty array ["a", null, [], false]: two-space indentation, one element per line; an EMPTY nested
+/// container is printed by the current code as the opening bracket, an empty line, the parent's indentation and the
+/// closing bracket
 #[kani::proof]
 #[kani::unwind(6)]
 #[kani::stub(crate::parser::parse_value, no_text)]
+#[kani::stub(std::string::String::from_utf8_lossy, lossy_ascii)]
 fn km_pretty_array() {
-    let v = nt();
-    let f = It { word: T_FALSE, pay: [0u8; PAYMAX], plen: 0 };
+    let v = c_null();
+    let f = c_false();
     let d1 = lay_array(&[cstr(b"a"), v, cont(&lay_array(&[])), f]);
     let mut t = Txt::new();
     t.lit(b"[\n  \"a\",\n  ");
@@ -343,6 +361,15 @@ fn km_pretty_array() {
     t.lit(b",\n  [\n\n  ],\n  ");
     t.lit(b"false\n]");
     assert!(t.same(&to_pretty_string(d1.as_slice())));
+}
+
+/// STRUCTURE, pretty nested array [["b"], true]: nested elements at four spaces, closing bracket at two
+#[kani::proof]
+#[kani::unwind(6)]
+#[kani::stub(crate::parser::parse_value, no_text)]
+#[kani::stub(std::string::String::from_utf8_lossy, lossy_ascii)]
+fn km_pretty_array_nested() {
+    let v = c_true();
     let d2 = lay_array(&[cont(&lay_array(&[cstr(b"b")])), v]);
     let mut u = Txt::new();
     u.lit(b"[\n  [\n    \"b\"\n  ");
@@ -352,12 +379,13 @@ fn km_pretty_array() {
     assert!(u.same(&to_pretty_string(d2.as_slice())));
 }
 
-/// STRUCTURE, pretty object {"a": "x", "bc": {"d": null|true}, ...}: `"key": value`, nested members at four spaces
+/// STRUCTURE, pretty object {"a": "x", "bc": {"d": null}}: `"key": value`, nested members at four spaces
 #[kani::proof]
 #[kani::unwind(6)]
 #[kani::stub(crate::parser::parse_value, no_text)]
+#[kani::stub(std::string::String::from_utf8_lossy, lossy_ascii)]
 fn km_pretty_object() {
-    let v = nt();
+    let v = c_null();
     let inner = cont(&lay_object(&[cstr(b"d")], &[v]));
     let doc = lay_object(&[cstr(b"a"), cstr(b"bc")], &[cstr(b"x"), inner]);
     let mut t = Txt::new();
@@ -367,6 +395,25 @@ fn km_pretty_object() {
     t.scalar(&v);
     t.lit(b"\n  }\n}");
     assert!(t.same(&to_pretty_string(doc.as_slice())));
+}
+
+/// STRUCTURE, smallest pretty shapes: [null] and {"a": true}
+#[kani::proof]
+#[kani::unwind(6)]
+#[kani::stub(crate::parser::parse_value, no_text)]
+#[kani::stub(std::string::String::from_utf8_lossy, lossy_ascii)]
+fn km_pretty_tiny_array() {
+    let d = lay_array(&[c_null()]);
+    assert!(to_pretty_string(d.as_slice()).as_bytes() == b"[\n  null\n]");
+}
+
+#[kani::proof]
+#[kani::unwind(6)]
+#[kani::stub(crate::parser::parse_value, no_text)]
+#[kani::stub(std::string::String::from_utf8_lossy, lossy_ascii)]
+fn km_pretty_tiny_object() {
+    let d = lay_object(&[cstr(b"a")], &[c_true()]);
+    assert!(to_pretty_string(d.as_slice()).as_bytes() == b"{\n  \"a\": true\n}");
 }
 
 /// empty top-level containers, compact and pretty
